@@ -613,6 +613,9 @@ const char *UtilContext::get_address(const char *token, uint32_t *address)
 
   if (ret == 0)
   {
+    // A symbol's address is in the CPU's units, like a number.
+    *address *= bytes_per_address;
+
     while (*token != ' ' && *token != 0) { token++; }
     return token;
   }
